@@ -992,6 +992,16 @@ w('C07', 'result-object form: handler ignores the failure flag', 'C07.R6', *B15P
   (CM, 'depositSuccess, reason = deposit.success, deposit.reason', 'depositSuccess, reason = true, deposit.reason'))
 w('C07', 'reordered hook parameters: zero max gas no longer short-circuits', 'C07.R4', *B15P6,
   (DEP, '\tif hookMaxGas == 0 {\n\t\treturn false, "hook max gas is zero"\n\t}\n', ''))
+
+# wave 5 seeds (own-property rule) and the third round of sub-agent refactors
+wseed('C01d','C01.R4'); wseed('C02d','C02.R3'); wseed('C03d','C03.R5'); wseed('C04d','C04.R1'); wseed('C05d','C05.R1')
+wseed('C06d','C06.R2'); wseed('C07d','C07.R11'); wseed('C08d','C08.R1'); wseed('C09d','C09.R4'); wseed('C10d','C10.R3')
+for b in ['B13','B14','B15','B16','B17','B18']:
+    for i in range(1,7):
+        wbenign(b,'p%d.diff'%i)
+
+wseed('C11d','C11.R1'); wseed('C12d','C12.R4'); wseed('C12d','C14.R3',prop='C14'); wseed('C13d','C13.R6'); wseed('C14d','C14.R1'); wseed('C15d','C15.R3')
+wseed('C16d','C16.R5'); wseed('C17d','C17.R5'); wseed('C18d','C18.R2'); wseed('C19d','C19.R3'); wseed('C20d','C20.R2')
 #@@MORE@@
 for p,l in W.items():
     json.dump(l, open(os.path.join(HERE,p+'.json'),'w'), indent=1)
